@@ -204,4 +204,66 @@ theorem inSet_abs (s : St) (h : NoDueRm s) (k : Nat) : (abs s).inSet k = (s.key 
     | none => rfl
     | some e => simp [h k r e hr hd, KSt.inSet]
 
+/-! ## folds over distinct keys -/
+
+theorem foldl_local {A : Type} (σ : St → Nat → A) (f : St → Nat → St) (φ : Nat → A → A) (I : St → Prop)
+    (hI : ∀ s k, I s → I (f s k))
+    (h : ∀ s k k', I s → σ (f s k) k' = if k' = k then φ k (σ s k) else σ s k')
+    (L : List Nat) (nd : L.Nodup) (s : St) (hs : I s) (k' : Nat) :
+    σ (L.foldl f s) k' = if k' ∈ L then φ k' (σ s k') else σ s k' := by
+  induction L generalizing s with
+  | nil => simp
+  | cons k L ih =>
+    rw [List.nodup_cons] at nd
+    rw [List.foldl_cons, ih nd.2 (f s k) (hI s k hs), h s k k' hs]
+    by_cases hk : k' = k
+    · subst hk; simp [nd.1]
+    · simp [hk]
+
+theorem foldl_inv {I : St → Prop} (f : St → Nat → St) (hI : ∀ s k, I s → I (f s k))
+    (L : List Nat) (s : St) (hs : I s) : I (L.foldl f s) := by
+  induction L generalizing s with
+  | nil => exact hs
+  | cons k L ih => exact ih (f s k) (hI s k hs)
+
+theorem foldl_frame (f : St → Nat → St) (hf : ∀ s k, Frame s (f s k)) (L : List Nat) (s : St) :
+    Frame s (L.foldl f s) := by
+  induction L generalizing s with
+  | nil => exact Frame.refl s
+  | cons k L ih => exact (hf s k).trans (ih (f s k))
+
+theorem nodup_dedup (ks : List Nat) : (dedup ks).Nodup := by
+  induction ks with
+  | nil => simp [dedup]
+  | cons k ks ih =>
+    simp only [dedup, List.nodup_cons]
+    exact ⟨by simp, List.Pairwise.filter _ ih⟩
+
+theorem mem_dedup (ks : List Nat) (k : Nat) : k ∈ dedup ks ↔ k ∈ ks := by
+  induction ks with
+  | nil => simp [dedup]
+  | cons x ks ih =>
+    simp only [dedup, List.mem_cons, List.mem_filter, ih]
+    by_cases h : k = x <;> simp [h]
+
+theorem nodup_keyList (s : St) : (keyList s).Nodup := List.Pairwise.filter _ List.nodup_range
+
+theorem mem_keyList (s : St) (k : Nat) : k ∈ keyList s ↔ (s.key k).isSome = true := by
+  simp only [keyList, List.mem_filter, List.mem_range, present]
+  constructor
+  · exact fun h => h.2
+  · intro h
+    refine ⟨?_, h⟩
+    cases hr : s.key k with
+    | none => simp [hr] at h
+    | some r => exact look_lt _ _ _ hr
+
+/-- first components of folds that also collect constructor calls / counters -/
+theorem foldl_fst {β : Type} (g : St × β → Nat → St × β) (f : St → Nat → St)
+    (h : ∀ p k, (g p k).1 = f p.1 k) (L : List Nat) (p : St × β) :
+    (L.foldl g p).1 = L.foldl f p.1 := by
+  induction L generalizing p with
+  | nil => rfl
+  | cons k L ih => rw [List.foldl_cons, List.foldl_cons, ih, h]
+
 end UtilModel.Keyed
